@@ -10,7 +10,8 @@ Decided here (the I/O round trip itself is not decided; this is writer / reader 
   C16-R2  fixed entries: after the results both archive builders write `model.aeon` (the model text) and `formulae.txt`
           (one formula per line, in the order given) exactly once, then finish - read off the effect trace, so a builder that
           delegates to the other one is the same;
-  C16-R3  label / line correspondence: analyse_formulae stores result i under `formula-<i>` with i the enumerate counter of
+  C16-R3  label / line correspondence: analyse_formulae stores result i - the raw set returned by eval_node, not a transformed copy -
+          under `formula-<i>` with i the enumerate counter of
           the loop over the list of trees built once per input formula in input order (no filter, no reordering), the value
           stored is eval_node of the element at that position, the archive receives exactly that map, the model text of the
           network and the input formulae."""
@@ -340,6 +341,14 @@ def run(prog, rep):
            and any(y == evs[0].term for y in [x.args[2]] + list(subterms(x.args[2])))]
     good = len(evs) == 1 and len(ins) == 1
     why = f"{len(evs)} eval_node call(s), {len(ins)} result insertion(s)"
+    if good:
+        # the archived set is the raw result itself (it is reloaded against a graph with the same spare variable sets: a sanitised or
+        # otherwise transformed copy does not fit that context)
+        v_ = ins[0].args[2]
+        while v_[0] == "call" and isinstance(v_[1], str) and last(v_[1]) in ("clone", "to_owned", "borrow", "deref") and len(v_[2]) == 1:
+            v_ = v_[2][0]
+        good = v_ == evs[0].term
+        why = f"the archived value is {sem.short(ins[0].args[2], 120)}: not the set returned by eval_node itself"
     if good:
         ev, st = evs[0], ins[0]
         pieces = render.string_pieces(st.args[1])
